@@ -71,3 +71,52 @@ c('TimeDelta::Sub__sub', U, requires="td_inv(self), td_inv(rhs), -LIM() <= td_ns
 c('TimeDelta::Mul__mul', U, requires="td_inv(self), -LIM() <= td_ns(self) * rhs as int <= LIM()", ensures="td_inv(r), td_ns(r) == td_ns(self) * rhs as int")
 c('TimeDelta::Div__div', U, requires="td_inv(self), rhs != 0", ensures="td_inv(r), iabs(td_ns(r) * rhs as int - td_ns(self)) < 2 * iabs(rhs as int)")
 c('div_mod_floor_64', U, requires="other > 0", ensures="r.0 == this as int / other as int, r.1 == this as int % other as int")
+
+# ------------------------------------------------------------------------------------------------
+# C01  packed-date kernel (src/naive/date/mod.rs, src/naive/internals.rs) -- proved by Kani, assumed by the Verus units.
+# v_yof(d) is the abstract view "the i32 stored in the date"; flags400(r) is "the YEAR_TO_FLAGS cell r".
+K = 'kani:vk_date_bits'
+c('NaiveDate::yof', K, ensures="r as int == v_yof(*self)")
+c('NaiveDate::year', K, ensures="r as int == v_year(*self)")
+c('NaiveDate::ordinal', K, ensures="r as int == v_ord(*self)")
+c('NaiveDate::year_flags', K, ensures="r.0 as int == v_flags(*self)")
+c('NaiveDate::leap_year', 'kani:vk_date_accessors', requires="dwf(*self)", ensures="r == is_leap(v_year(*self))")
+c('NaiveDate::from_yof', K, requires="1 <= (yof as int % 8192) / 16 <= 366, yof as int % 8 != 0", ensures="v_yof(r) == yof as int")
+c('YearFlags::from_year_mod_400', 'kani:vk_year_flags_table', requires="0 <= year < 400", ensures="r.0 as int == flags400(year as int)")
+c('YearFlags::from_year', 'kani:vk_year_flags_table', ensures="r.0 as int == flags_of(year as int)")
+c('NaiveDate::from_ordinal_and_flags', 'kani:vk_date_from_ordinal_and_flags',
+  requires="flags.0 as int == flags_of(year as int)",
+  ensures="r.is_some() <==> (MIN_Y() <= year <= MAX_Y() && 1 <= ordinal <= year_len(year as int)), "
+          "r.is_some() ==> v_year(r.unwrap()) == year && v_ord(r.unwrap()) == ordinal && dwf(r.unwrap())")
+c('NaiveDate::from_yo_opt', 'kani:vk_date_from_yo_opt',
+  ensures="r.is_some() <==> (MIN_Y() <= year <= MAX_Y() && 1 <= ordinal <= year_len(year as int)), "
+          "r.is_some() ==> v_year(r.unwrap()) == year && v_ord(r.unwrap()) == ordinal && dwf(r.unwrap())")
+c('NaiveDate::from_ymd_opt', 'kani:vk_date_from_ymd_opt',
+  ensures="r.is_some() <==> (MIN_Y() <= year <= MAX_Y() && ymd_valid(year as int, month as int, day as int)), "
+          "r.is_some() ==> v_year(r.unwrap()) == year && v_ord(r.unwrap()) == ordinal_of(year as int, month as int, day as int) && dwf(r.unwrap())")
+c('NaiveDate::month', 'kani:vk_date_accessors', requires="dwf(*self)",
+  ensures="1 <= r <= 12, cum_days(v_year(*self), r as int) < v_ord(*self) <= cum_days(v_year(*self), r as int) + month_len(v_year(*self), r as int)")
+c('NaiveDate::day', 'kani:vk_date_accessors', requires="dwf(*self)",
+  ensures="exists|m: int| 1 <= m <= 12 && 1 <= r <= month_len(v_year(*self), m) && #[trigger] cum_days(v_year(*self), m) + r as int == v_ord(*self)")
+c('flags400_facts', 'kani:vk_year_flags_table', requires="0 <= ym < 400",
+  ensures="0 <= flags400(ym) < 16, flags400(ym) % 8 != 0, (flags400(ym) / 8 == 0) == is_leap(ym)")
+
+# ------------------------------------------------------------------------------------------------
+# C01/C03  day-count arithmetic of NaiveDate -- proved by Verus (units/date.py)
+U = 'verus:date'
+RANGE = "DN_MIN() <= {e} <= DN_MAX()"
+def date_move(expr):
+    return ("r.is_some() <==> " + RANGE.format(e=expr) + ", r.is_some() ==> dwf(r.unwrap()) && dn(r.unwrap()) == " + expr)
+c('div_mod_floor', U, requires="div > 0", ensures="r.0 == val as int / div as int, r.1 == val as int % div as int")
+c('yo_to_cycle', U, requires="year_mod_400 < 400, 1 <= ordinal <= 366", ensures="r as int == cyc(year_mod_400 as int, ordinal as int)")
+c('cycle_to_yo', U, requires="cycle < 146097",
+  ensures="r.0 < 400, 1 <= r.1 <= year_len(r.0 as int), cyc(r.0 as int, r.1 as int) == cycle as int")
+c('NaiveDate::from_num_days_from_ce_opt', U, ensures=date_move("days as int"))
+c('NaiveDate::num_days_from_ce', U, requires="dwf(*self)", ensures="r as int == dn(*self)")
+c('NaiveDate::add_days', U, requires="dwf(self)", ensures=date_move("dn(self) + days as int"))
+c('NaiveDate::checked_add_days', U, requires="dwf(self)", ensures=date_move("dn(self) + days.0 as int"))
+c('NaiveDate::checked_sub_days', U, requires="dwf(self)", ensures=date_move("dn(self) - days.0 as int"))
+c('NaiveDate::checked_add_signed', U, requires="dwf(self), td_inv(rhs)", ensures=date_move("dn(self) + trunc_div(td_ns(rhs), 86_400_000_000_000)"))
+c('NaiveDate::checked_sub_signed', U, requires="dwf(self), td_inv(rhs)", ensures=date_move("dn(self) - trunc_div(td_ns(rhs), 86_400_000_000_000)"))
+c('NaiveDate::signed_duration_since', U, requires="dwf(self), dwf(rhs)",
+  ensures="td_inv(r), td_ns(r) == (dn(self) - dn(rhs)) * 86_400_000_000_000")
